@@ -54,10 +54,10 @@ CHECKS = {
         "technique": "deterministic simulation: history machine over a shared long-lived value with injected failing applications and caller mutations, snapshot/alias oracle against a fresh-patch reference, replay/minimisation",
     },
     "C18": {
-        "text": "Seeded search over simulated process invocations: the real `python -m jsonpath` entry (jsonpath/__main__.py, run in-process through runpy) runs behind a process stub (argv, stdin/stdout/stderr, exit status, open() routed) and an in-memory file system whose stored bytes are corrupted (truncated, flipped, emptied, garbage, invalid UTF-8, UTF-16, BOM, padding) before the run, over every option combination, inline / file / empty / multi-line expressions, documents with non-ASCII text, lone surrogates and non-finite numbers; output bytes (any json.dumps rendering of the same value counts as its serialisation), exit status and stderr are compared with the corresponding library call on the same bytes; a sample is cross-checked against a real python -m jsonpath subprocess. Sampling, not proof.",
+        "text": "Seeded search over simulated process invocations: the real `python -m jsonpath` entry (jsonpath/__main__.py, run in-process through runpy) runs behind a process stub (own argv, named closable stdin/stdout/stderr, exit status, freshly imported CLI modules, a scratch working directory holding exactly the run's files) whose stored bytes are corrupted (truncated, flipped, emptied, garbage, invalid UTF-8, UTF-16, BOM, padding) before the run, over every option combination, inline / file / empty / multi-line expressions, documents with non-ASCII text, lone surrogates and non-finite numbers; output bytes (any json.dumps rendering of the same value counts as its serialisation), exit status and stderr are compared with the corresponding library call on the same bytes; a sample is cross-checked against a real python -m jsonpath subprocess. Sampling, not proof.",
         "design": "4.6",
-        "note": "Trusted: the library call behind each sub-command as reference; json.dumps as 'the JSON serialisation'; the in-process stub for all but the sampled subprocess runs. I/O errors (EIO, ENOSPC, missing file) are not injected: the property gives them no meaning.",
-        "technique": "deterministic simulation of the process boundary: in-memory file system + process stub with stored-byte fault injection, differential oracle vs library call, sampled real-subprocess parity, replay/minimisation",
+        "note": "Trusted: the library call behind each sub-command as reference; json.dumps as 'the JSON serialisation'; the in-process stub for all but the sampled subprocess runs; stdin may reach the library as text or bytes, a -f file as bytes. I/O errors (EIO, ENOSPC, missing file) are not injected: the property gives them no meaning.",
+        "technique": "deterministic simulation of the process boundary: process stub over a per-run scratch directory with stored-byte fault injection, differential oracle vs library call, sampled real-subprocess parity, replay/minimisation",
     },
 }
 
@@ -89,7 +89,7 @@ def main() -> None:
         "setup_cmd": "/venv/bin/python -c \"import sys; sys.path.insert(0,'/repo'); import jsonpath, asyncio; print('jsonpath', jsonpath.__file__)\"",
         "hooks": {
             "guard": "JSONPATH_VERIF",
-            "enable": "no hooks are needed: every seam (event loop, __getitem_async__ documents, io.IOBase documents, argparse.open, sys.settrace) already exists; checks import /repo's working tree directly (bin/check sets JSONPATH_VERIF=1 for form only)",
+            "enable": "no hooks are needed: every seam (event loop, __getitem_async__ documents, io.IOBase documents, sys.argv / std streams / working directory of `python -m jsonpath`, threading.Lock factories, sys.settrace) already exists; checks import /repo's working tree directly (bin/check sets JSONPATH_VERIF=1 for form only)",
             "baseline_off_cmd": "cd /repo && /venv/bin/python -m pytest -q -p no:cacheprovider --timeout=900 --continue-on-collection-errors",
             "source_commits": [],
             "add_only": True,
@@ -99,7 +99,7 @@ def main() -> None:
                 "name": "jpsim",
                 "path": "/verif/jpsim",
                 "serves_properties": present,
-                "kind_free_text": "seeded deterministic simulator: custom asyncio loop with virtual clock, baton-passed settrace threads, iterator scheduler, in-memory file system and process stub, fault injection, choice-list replay and minimisation",
+                "kind_free_text": "seeded deterministic simulator: custom asyncio loop with virtual clock, baton-passed settrace threads, iterator scheduler, in-memory stream stubs, process stub over a scratch directory, fault injection, choice-list replay and minimisation",
             }
         ],
         "checks": checks,
